@@ -8,6 +8,7 @@ import (
 	"sort"
 	"strconv"
 	"strings"
+	"sync"
 
 	"gzverify/load"
 	"gzverify/rep"
@@ -239,80 +240,122 @@ func SelfTest(prop string, verbose bool) *SelfTestResult {
 		runOnce(pid, d, r0, "quick", nil, nil, "")
 		base[pid] = failingIDs(r0)
 	}
+	// every variant is an independent load + rule run: a bounded pool of workers (memory: ~200 MB per load)
+	const workers = 6
+	var mu sync.Mutex
+	sem := make(chan struct{}, workers)
+	var wg sync.WaitGroup
 	for _, pf := range benignPatches() {
-		id := filepath.Base(filepath.Dir(pf))
-		overlay, err := applyUnifiedDiff(load.RepoDir(), pf)
-		if err != nil {
-			res.Stale = append(res.Stale, id+": "+err.Error())
-			continue
-		}
-		res.Benign++
-		for _, pid := range checkProps {
-			d := props[pid]
-			// only properties whose analysed files are touched need re-running; cheap enough to run all
-			r := rep.New(pid, "selftest", d.level)
-			runOnce(pid, d, r, "quick", nil, overlay, "")
-			for _, o := range r.Obs {
-				if (o.Status == rep.Violated || o.Status == rep.Undecided) && !base[pid][o.ID+"|"+o.Detail] {
-					res.FalseAlarms = append(res.FalseAlarms, id+": "+pid+" "+o.Rule+" "+o.Construct)
-					break
+		pf := pf
+		wg.Add(1)
+		sem <- struct{}{}
+		go func() {
+			defer func() { <-sem; wg.Done() }()
+			id := filepath.Base(filepath.Dir(pf))
+			overlay, err := applyUnifiedDiff(load.RepoDir(), pf)
+			if err != nil {
+				mu.Lock()
+				res.Stale = append(res.Stale, id+": "+err.Error())
+				mu.Unlock()
+				return
+			}
+			var alarms []string
+			for _, pid := range checkProps {
+				d := props[pid]
+				r := rep.New(pid, "selftest", d.level)
+				runOnce(pid, d, r, "quick", nil, overlay, "")
+				for _, o := range r.Obs {
+					if (o.Status == rep.Violated || o.Status == rep.Undecided) && !base[pid][o.ID+"|"+o.Detail] {
+						alarms = append(alarms, id+": "+pid+" "+o.Rule+" "+o.Construct)
+						break
+					}
 				}
 			}
-		}
-		if verbose {
-			fmt.Println(id + ": benign refactoring applied")
+			mu.Lock()
+			res.Benign++
+			res.FalseAlarms = append(res.FalseAlarms, alarms...)
+			mu.Unlock()
+			if verbose {
+				fmt.Println(id + ": benign refactoring applied")
+			}
+		}()
+	}
+	wg.Wait()
+	cat := catalogue(prop)
+	for _, m := range cat {
+		if d, ok := props[m.Property]; ok {
+			if _, ok := base[m.Property]; !ok {
+				r0 := rep.New(m.Property, "selftest", d.level)
+				runOnce(m.Property, d, r0, "quick", nil, nil, "")
+				base[m.Property] = failingIDs(r0)
+			}
 		}
 	}
-	for _, m := range catalogue(prop) {
+	details := make([]string, len(cat))
+	for i, m := range cat {
+		i, m := i, m
 		d, ok := props[m.Property]
 		if !ok {
 			continue
 		}
-		if _, ok := base[m.Property]; !ok {
-			r0 := rep.New(m.Property, "selftest", d.level)
-			runOnce(m.Property, d, r0, "quick", nil, nil, "")
-			base[m.Property] = failingIDs(r0)
-		}
-		var overlay map[string][]byte
-		var err error
-		if m.patch != "" {
-			overlay, err = applyUnifiedDiff(load.RepoDir(), m.patch)
-		} else {
-			path := filepath.Join(load.RepoDir(), m.File)
-			var b []byte
-			b, err = os.ReadFile(path)
-			if err == nil {
-				if strings.Count(string(b), m.Old) != 1 {
-					err = fmt.Errorf("snippet occurs %d times", strings.Count(string(b), m.Old))
-				} else {
-					overlay = map[string][]byte{path: []byte(strings.Replace(string(b), m.Old, m.New, 1))}
+		wg.Add(1)
+		sem <- struct{}{}
+		go func() {
+			defer func() { <-sem; wg.Done() }()
+			var overlay map[string][]byte
+			var err error
+			if m.patch != "" {
+				overlay, err = applyUnifiedDiff(load.RepoDir(), m.patch)
+			} else {
+				path := filepath.Join(load.RepoDir(), m.File)
+				var b []byte
+				b, err = os.ReadFile(path)
+				if err == nil {
+					if strings.Count(string(b), m.Old) != 1 {
+						err = fmt.Errorf("snippet occurs %d times", strings.Count(string(b), m.Old))
+					} else {
+						overlay = map[string][]byte{path: []byte(strings.Replace(string(b), m.Old, m.New, 1))}
+					}
 				}
 			}
-		}
-		if err != nil {
-			res.Stale = append(res.Stale, m.ID+": "+err.Error())
-			continue
-		}
-		res.Total++
-		r := rep.New(m.Property, "selftest", d.level)
-		runOnce(m.Property, d, r, "quick", nil, overlay, "")
-		killedBy := ""
-		for _, o := range r.Obs {
-			if (o.Status == rep.Violated || o.Status == rep.Undecided) && !base[m.Property][o.ID+"|"+o.Detail] {
-				killedBy = o.Rule + " " + o.Construct
-				break
+			if err != nil {
+				mu.Lock()
+				res.Stale = append(res.Stale, m.ID+": "+err.Error())
+				mu.Unlock()
+				return
 			}
-		}
-		if killedBy != "" {
-			res.Killed++
-			res.Details = append(res.Details, m.ID+": killed by "+killedBy)
-		} else {
-			res.Survived = append(res.Survived, m.ID)
-			res.Details = append(res.Details, m.ID+": SURVIVED")
-		}
-		if verbose {
-			fmt.Println(res.Details[len(res.Details)-1])
+			r := rep.New(m.Property, "selftest", d.level)
+			runOnce(m.Property, d, r, "quick", nil, overlay, "")
+			killedBy := ""
+			for _, o := range r.Obs {
+				if (o.Status == rep.Violated || o.Status == rep.Undecided) && !base[m.Property][o.ID+"|"+o.Detail] {
+					killedBy = o.Rule + " " + o.Construct
+					break
+				}
+			}
+			mu.Lock()
+			res.Total++
+			if killedBy != "" {
+				res.Killed++
+				details[i] = m.ID + ": killed by " + killedBy
+			} else {
+				res.Survived = append(res.Survived, m.ID)
+				details[i] = m.ID + ": SURVIVED"
+			}
+			mu.Unlock()
+			if verbose {
+				fmt.Println(details[i])
+			}
+		}()
+	}
+	wg.Wait()
+	for _, dl := range details {
+		if dl != "" {
+			res.Details = append(res.Details, dl)
 		}
 	}
+	sort.Strings(res.Survived)
+	sort.Strings(res.Stale)
+	sort.Strings(res.FalseAlarms)
 	return res
 }
